@@ -217,6 +217,28 @@ theorem every_document_has_an_entry_in_every_index (d : IndexMulti.MDoc) (fields
 example : IndexMulti.keysOf ⟨1, .str [97], .null, some [], none⟩ ["name", "nums", "tags"] = [[.str [97], .null, .null]] := by
   decide
 
+/-- **The index path returns what the scan returns**, for every index over scalar and array fields of the model, every
+    filter, every document list with distinct identifiers: if the candidate test derived from the filter (key range,
+    prefix, matchers) passes at least one key of every matching document, the index fetch — candidate entries,
+    de-duplication by document, look-up, complete filter — yields exactly the documents of the plain scan, each once. -/
+theorem index_fetch_equals_scan (fields : List String) (cand : List Query.V → Bool) (f : IndexMulti.Filter)
+    (docs : List IndexMulti.MDoc) (hn : (docs.map (·.k)).Nodup)
+    (hcomplete : ∀ d ∈ docs, IndexMulti.satisfies f d = true →
+      ∃ key ∈ IndexMulti.keysOf d fields, cand key = true) :
+    (IndexMulti.indexFetch fields cand f docs).Perm (IndexMulti.eval f docs) :=
+  IndexMulti.indexFetch_perm_eval fields cand f docs hn hcomplete
+
+/-- in particular an index none of whose fields the filter constrains (every entry is a candidate) loses nothing:
+    the premise holds because every document has an entry -/
+theorem unconstrained_index_fetch_equals_scan (fields : List String) (f : IndexMulti.Filter)
+    (docs : List IndexMulti.MDoc) (hn : (docs.map (·.k)).Nodup) :
+    (IndexMulti.indexFetch fields (fun _ => true) f docs).Perm (IndexMulti.eval f docs) := by
+  apply index_fetch_equals_scan fields _ f docs hn
+  intro d _ _
+  cases hk : IndexMulti.keysOf d fields with
+  | nil => exact absurd hk (every_document_has_an_entry_in_every_index d fields)
+  | cons key t => exact ⟨key, List.mem_cons_self, rfl⟩
+
 /-- without the de-duplication the statement is false: a document with two entries is listed twice -/
 example : ([7, 7, 8].filter (fun _ => true)) ≠ [7, 8] ∧ (IndexMulti.dedupSeen [] [7, 7, 8]).filter (fun _ => true) = [7, 8] := by
   decide
